@@ -308,6 +308,20 @@ def run(ctx):
                 oka = bool(through) and not any(t_ in reached for t_ in [(h, 0)] + exits)
     C.check(oka, 'C08-MUST-checks', 'unescape_string|every-ampersand-decoded-or-reported', 'unescape_string can pass over an ampersand without decoding it and without reporting InvalidXmlEntity (e.g. an early exit when no ";" follows): malformed entities are accepted by strict loading and give no warning in lenient loading',
             '%s:%d' % (un.file, un.line), sample={'fn': 'unescape_string', 'per_ampersand': 'push(decoded char) or optional_error(InvalidXmlEntity)'})
+    # a value is stored as validated: parse_element only ever PUSHES onto the element's content; it does not reach back into a stored item
+    # (last_mut / get_mut / index) to extend it - the joined value would never have been seen by parse_character_data
+    import events as _EV
+    from flow import deep_sources as _ds
+    pe_ = P.get('ArxmlParser::parse_element')
+    ops_ = _EV.content_ops(pe_)
+    back = [o['pos'] for o in ops_ if o['op'] != 'push']
+    for x_ in [pe_] + list(P.closures_of(pe_)):
+        for pos, t in x_.iter_calls():
+            if call_matches(t, r'::(last_mut|first_mut|get_mut|iter_mut|index_mut)$') and t['args'] and 'ElementRaw.content' in _ds(x_, t['args'][0], depth=16)[2]:
+                back.append(pos)
+    C.check(bool(ops_) and not back, 'C08-MUST-checks', 'parse_element|stored-content-is-never-edited-after-validation',
+            'parse_element reaches back into an already stored content item and changes it: the resulting value as a whole was never validated by parse_character_data (length limit / pattern hold for the pieces only), so strict loading accepts a value the validator documents as invalid',
+            pe_.where(back[0]) if back else '%s:%d' % (pe_.file, pe_.line), sample={'fn': 'ArxmlParser::parse_element', 'content_pushes': len(ops_)})
     # the mask accessor the validator relies on reads the mask of the element it was asked about (shared with C18-SIB-listing)
     from c18 import version_base_rule
     version_base_rule(C, P, 'C08-MUST-checks')
